@@ -41,7 +41,12 @@ RING_OPS = {
     "axpyin": (3, [0], [0, 1, 2]), "axmyin": (3, [0], [0, 1, 2]), "maxpyin": (3, [0], [0, 1, 2]),
     "addin": (2, [0], [0, 1]), "subin": (2, [0], [0, 1]), "mulin": (2, [0], [0, 1]), "divin": (2, [0], [0, 1]),
     "negin": (1, [0], [0]), "invin": (1, [0], [0]),
+    "reduce": (2, [0], [1]),
+    # Modular<integral S, integral C>, sizeof(S) == sizeof(C) only (modular-mulprecomp.inl)
+    "mul_precomp_p": (3, [0], [1, 2]), "mul_precomp_b": (3, [0], [1, 2]), "mul_precomp_b_without_reduction": (3, [0], [1, 2]),
 }
+PRECOMP_RINGS = {"i8_i8": 8, "i8_u8": 8, "u8_i8": 8, "u8_u8": 8, "i16_i16": 16, "i16_u16": 16, "u16_i16": 16, "u16_u16": 16,
+                 "i32_i32": 32, "i32_u32": 32, "u32_i32": 32, "u32_u32": 32, "i64_i64": 64, "i64_u64": 64, "u64_i64": 64, "u64_u64": 64}
 RING_OPNUM = {"add": 0, "sub": 1, "mul": 2, "div": 3, "neg": 4, "inv": 5, "axpy": 6, "axmy": 7, "maxpy": 8,
               "axpyin": 9, "axmyin": 10, "maxpyin": 11, "addin": 12, "subin": 13, "mulin": 14, "divin": 15,
               "negin": 16, "invin": 17}
@@ -191,7 +196,7 @@ def ring_spec(ring, p, op, a):
         if op in ("add", "addin"): return (a[0] + a[1]) % p
         if op in ("sub", "subin"): return (a[0] - a[1]) % p
         if op in ("neg", "negin"): return (-a[0]) % p
-        if op == "assign": return a[0]
+        if op in ("assign", "reduce"): return a[0]
         if op in ("mul", "mulin"): return a[0] * a[1] * Ri % p
         if op in ("axpy",): return (a[0] * a[1] * Ri + a[2]) % p
         if op in ("axmy",): return (a[0] * a[1] * Ri - a[2]) % p
@@ -205,9 +210,9 @@ def ring_spec(ring, p, op, a):
         return None
     if op in ("add", "addin"): return c(a[0] + a[1])
     if op in ("sub", "subin"): return c(a[0] - a[1])
-    if op in ("mul", "mulin"): return c(a[0] * a[1])
+    if op in ("mul", "mulin", "mul_precomp_p", "mul_precomp_b"): return c(a[0] * a[1])
     if op in ("neg", "negin"): return c(-a[0])
-    if op == "assign": return a[0]
+    if op in ("assign", "reduce"): return a[0]
     if op == "axpy": return c(a[0] * a[1] + a[2])
     if op == "axmy": return c(a[0] * a[1] - a[2])
     if op == "maxpy": return c(a[2] - a[0] * a[1])
@@ -453,11 +458,13 @@ def ring_site(ring):
     return "Modular<integral Storage_t,Compute_t>"        # modular-integral.inl (the ring type is in the case)
 
 
-def gen_ring_cases(rng, exe, ring, p, reps, cases):
+def gen_ring_cases(rng, exe, ring, p, reps, cases, only=None):
     for op, (n, dests, reads) in sorted(RING_OPS.items()):
+        if only is not None and op not in only:
+            continue
         unit_pos = {"div": [2], "inv": [1], "divin": [1], "invin": [0]}.get(op, [])
-        if ring in ZRINGS and op in ("div", "divin"):
-            pass
+        if op.startswith("mul_precomp") and (ring not in PRECOMP_RINGS or p.bit_length() > PRECOMP_RINGS[ring] // 2 - 2):
+            continue            # needs sizeof(Storage_t) == sizeof(Compute_t) and a modulus of at most 4 sizeof(Compute_t) - 2 bits
         for idx in partitions(n, dests):
             for rep in range(reps):
                 def gen(k):
@@ -724,6 +731,65 @@ def model_lines(c):
                 head = "pdivmod %d" % c.param if c.op == "divmod" else "poly %d %d" % (c.param, pop)
                 out.append("%s %s %s" % (head, " ".join(str(i + 1) for i in i4), " ".join(str(v) for v in v4)))
             return out
+    if c.dom == "RM":
+        K, mg, p = [int(t) for t in str(c.param).split(",")]
+        W = 1 << (1 << K)
+        base, _, t = c.op.partition(".")
+        num = RM_MODEL_OPS.get(c.op if t not in ("u64", "i64") else base + ".w")
+        if c.op in ("exp.u64", "exp.ru"):
+            num = 8 if (not mg or c.extra[0] < (1 << 64)) else None
+        if num is None:
+            return None
+        w = c.extra[0] if c.extra else 0
+        # operands that are inverted must be units (the model's inverse of a non-unit is not the subject)
+        invpos = {"inv": [1], "div": [2], "invin": [0], "divin": [1]}.get(base, [])
+        R = W % p if mg else 1
+        for vs in (c.vals, c.alias_vals()):
+            if any(math.gcd(int(vs[k]), p) != 1 for k in invpos if k < c.n):
+                return None
+        if t in ("u64", "i64") and base in ("inv", "div", "divin") and math.gcd(w % p, p) != 1:
+            return None
+        if base in ("mod", "modin") :
+            return None if any(int(v) == 0 for v in c.vals[1:]) or (t and w % p == 0) else _rm_lines(c, mg, num, W, p, w)
+        return _rm_lines(c, mg, num, W, p, w)
+    if c.dom == "RU" and c.op in ("div", "div_q", "div_r", "div_q.w", "div.w", "div_r.w") and c.param <= 8:
+        W = 1 << (1 << c.param)
+        one = 1 if c.param == 6 else 0
+        out = []
+        for ix, vs in ((fresh_idx, c.vals), (c.idx, c.alias_vals())):
+            ix = [i + 1 for i in ix]
+            f = max(ix) + 1
+            if c.op == "div":
+                out.append("rudivop 0 %d %d %d %d %d %d %s" % (one, W, ix[0], ix[1], ix[2], ix[3], " ".join(str(v) for v in vs)))
+            elif c.op in ("div_q", "div_r"):
+                out.append("rudivop %d %d %d %d %d %d %d %s 0 %s %s" % (1 if c.op == "div_q" else 2, one, W, ix[0], f, ix[1], ix[2], vs[0], vs[1], vs[2]))
+            elif c.op == "div_q.w":
+                out.append("rudivop 3 %d %d %d %d %d %d %s 0 %s %s" % (one, W, ix[0], f, ix[1], f + 1, vs[0], vs[1], c.extra[0]))
+            elif c.op == "div.w":
+                out.append("rudivop 4 %d %d %d %d %d %d %s 0 %s %s" % (one, W, ix[0], f, ix[1], f + 1, vs[0], vs[1], c.extra[0]))
+            else:
+                out.append("rudivop 5 %d %d %d %d %d %d 0 0 %s %s" % (one, W, f, f + 1, ix[0], f + 2, vs[0], c.extra[0]))
+        return out
+    if c.dom == "ext" and c.op in RING_OPNUM and EXT_IRRED.get(str(c.param)):
+        p = int(str(c.param).split(",")[0])
+        out = []
+        for ix, vs in ((fresh_idx, c.vals), (c.idx, c.alias_vals())):
+            i4 = (list(ix) + [max(ix) + 1 + j for j in range(4)])[:4]
+            v4 = (list(vs) + ["z"] * 4)[:4]
+            out.append("ext %d %s %d %s %s" % (p, EXT_IRRED[str(c.param)], RING_OPNUM[c.op], " ".join(str(i + 1) for i in i4), " ".join(str(v) for v in v4)))
+        return out
+    if c.dom == "poly" and c.op in POLYB_OPS:
+        num = POLYB_OPS[c.op]
+        k = c.extra[0] if c.extra else 0
+        out = []
+        for ix, vs in ((fresh_idx, c.vals), (c.idx, c.alias_vals())):
+            i4 = (list(ix) + [max(ix) + 1 + j for j in range(4)])[:4]
+            v4 = (list(vs) + ["z"] * 4)[:4]
+            out.append("polyb %d %d %d %s %s" % (c.param, k, num, " ".join(str(i + 1) for i in i4), " ".join(str(v) for v in v4)))
+        return out
+    if c.dom == "poly" and c.op in ("divmodin", "gcd5"):
+        return ["%s %d %s %s" % ("pdivmodin" if c.op == "divmodin" else "pgcdx", c.param, " ".join(str(i + 1) for i in ix), " ".join(str(v) for v in vs))
+                for ix, vs in ((fresh_idx, c.vals), (c.idx, c.alias_vals()))]
     if c.dom == "Q":
         qop = {"neg": 0, "inv": 1, "negin": 2, "invin": 3, "op+=": 4, "op-=": 5, "addin": 4, "subin": 5}.get(c.op)
         if qop is not None:
@@ -736,9 +802,34 @@ def model_lines(c):
     return None
 
 
+RM_MODEL_OPS = {"add": 0, "sub": 1, "neg": 2, "mul": 3, "square": 4, "inv": 5, "div": 6, "mod": 7, "add.w": 9, "sub.w": 10, "mul.w": 11, "div.w": 12,
+                "mod.w": 13, "inv.w": 14, "addin": 15, "subin": 16, "negin": 17, "mulin": 18, "squarein": 19, "invin": 20, "divin": 21, "modin": 22,
+                "addmul": 23, "addin.w": 24, "subin.w": 25, "mulin.w": 26, "divin.w": 27, "modin.w": 28, "addmul.w": 29}
+POLYB_OPS = {"lcm": 0, "divin": 1, "modin": 2, "powmod": 3, "add.s": 4, "sub.s": 5, "sub.sl": 6, "div.s": 7}
+EXT_IRRED = {}         # param "p,k" -> the irreducible polynomial the implementation drew (read from the harness in every run)
+
+
+def _rm_lines(c, mg, num, W, p, w):
+    p1 = (-pow(p, -1, W)) % W if mg else 0
+    out = []
+    for ix, vs in ((list(range(c.n)), c.vals), (c.idx, c.alias_vals())):
+        i4 = (list(ix) + [max(ix) + 1 + j for j in range(4)])[:4]
+        v4 = (list(vs) + [0] * 4)[:4]
+        out.append("rm %d %d %d %d %d %d %s %s %d" % (mg, num, W, p, p1, W % p, " ".join(str(i + 1) for i in i4), " ".join(str(v) for v in v4), w))
+    return out
+
+
 def model_view(c, mline):
     """the model's output line as position values comparable with the harness output"""
     t = mline.split()
+    if c.dom == "RU" and c.op in ("div_q", "div_r"):
+        return [t[0], t[2], t[3]], None
+    if c.dom == "RU" and c.op == "div_q.w":
+        return [t[0], t[2]], None
+    if c.dom == "RU" and c.op == "div.w":
+        return [t[0], t[2]], t[4]
+    if c.dom == "RU" and c.op == "div_r.w":
+        return [t[2]], t[4]
     if c.dom == "Q":
         q = ["%s/%s" % (t[0], t[1]), "%s/%s" % (t[2], t[3])]
         return q[:c.n], None
@@ -790,6 +881,14 @@ def spec_expect(c):
             _, op, K, x = s
             e = ru_spec(op, K, [int(v) for v in c.vals], x)
             return None if e is None else {k: str(v) for k, v in e.items()}
+        if s[0] == "ZR":
+            _, op, x = s
+            e = zr_spec(op, [int(v) for v in c.vals], x)
+            return None if e is None else {k: str(v) for k, v in e.items()}
+        if s[0] == "CRT":
+            _, M, p = s
+            v = [int(t) for t in c.vals]
+            return None         # the representative is not canonical (not-fast variant): residues are compared below
         if s[0] == "RM":
             _, op, K, mg, p, x = s
             e = rm_spec(op, K, mg, p, [int(v) for v in c.vals], x)
@@ -882,7 +981,7 @@ RU_OPS = {
     "add_wc.c": (3, [0], [1, 2], "bit", ""), "add_wcin.c": (2, [0], [0, 1], "bit", ""),
     "sub_wc.c": (3, [0], [1, 2], "bit", ""), "sub_wcin.c": (2, [0], [0, 1], "bit", ""), "sub_wcin": (2, [0], [0, 1], "bit", ""),
     "left_shift_1.c": (2, [0], [1], None, ""), "right_shift_1.c": (2, [0], [1], None, ""),
-    "arazi_qi": (2, [0], [1], None, "odd1"), "mulin.w": (1, [0], [0], "u64", ""),
+    "arazi_qi": (2, [0], [1], None, "odd1"), "mod_n.l": (2, [0], [1], "wide", "nz1"), "mulin.w": (1, [0], [0], "u64", ""),
     "laddmul.c": (5, [0, 1], [2, 3, 4], None, "naive"), "exp_mod.w": (3, [0], [1, 2], "u64", "expw"),
     "div.w": (2, [0], [1], "u64nz", "same"), "div_r.w": (1, [], [0], "u64nz", "same"),
     "op+=": (2, [0], [0, 1], None, ""), "op-=": (2, [0], [0, 1], None, ""), "op*=": (2, [0], [0, 1], None, ""), "op/=": (2, [0], [0, 1], None, "nz1"),
@@ -890,7 +989,7 @@ RU_OPS = {
     "op<<=": (1, [0], [0], "shift", ""), "op>>=": (1, [0], [0], "shift", ""),
     "op=+": (3, [0], [1, 2], None, ""), "op=-": (3, [0], [1, 2], None, ""), "op=*": (3, [0], [1, 2], None, ""), "op=/": (3, [0], [1, 2], None, "nz2"), "op=%": (3, [0], [1, 2], None, "nz2"),
 }
-RU_NAMES = {"laddmul.c": "hlbcd", "exp_mod.w": "rbn", "div.w": "qa", "div_r.w": "a", "bezout_mod": "xycd", "lmul": "hlbc", "lmul_naive": "hlbc", "laddmul": "hlbcd", "div": "qrab", "exp_mod": "rben"}
+RU_NAMES = {"mod_n.l": "an", "laddmul.c": "hlbcd", "exp_mod.w": "rbn", "div.w": "qa", "div_r.w": "a", "bezout_mod": "xycd", "lmul": "hlbc", "lmul_naive": "hlbc", "laddmul": "hlbcd", "div": "qrab", "exp_mod": "rben"}
 
 
 def ru_valid(op, tag, v, W):
@@ -966,6 +1065,7 @@ def ru_spec(op, K, v, s):
     if op == "left_shift_1.c": return {0: (v[1] << 1) % W, "R": (v[1] << 1) // W}
     if op == "right_shift_1.c": return {0: v[1] >> 1, "R": v[1] & 1}
     if op == "arazi_qi": return {0: pow(v[1], -1, W)}
+    if op == "mod_n.l": return {0: s % v[1]}
     if op == "mulin.w": return {0: v[0] * s % W}
     if op == "laddmul.c": return {0: (v[2] * v[3] + v[4]) // W % W, 1: (v[2] * v[3] + v[4]) % W, "R": (v[2] * v[3] + v[4]) // (W * W)}
     if op == "exp_mod.w": return {0: pow(v[1], s, v[2])}
@@ -1007,6 +1107,8 @@ def gen_ru_cases(rng, exes, quick, cases):
                         x = rng.below(2)
                     elif sk == "shift":
                         x = rng.choice([0, 1, 63, 64, 65, (1 << K) - 1, (1 << K) // 2, rng.range(0, (1 << K) - 1)])
+                    elif sk == "wide":
+                        x = rng.choice([0, 1, W - 1, W, W * W - 1, rng.range(0, W * W - 1), rng.range(0, W * W - 1)])
                     elif sk:
                         x = scalar(rng, sk)
                     if tag == "same" and rep % 2 == 0:
@@ -1044,7 +1146,7 @@ def _rm_ops():
     o["addmul"] = (3, [0], [0, 1, 2], None, "")
     for b in ("addin", "subin", "mulin", "divin", "modin", "op+=", "op-=", "op*=", "op/=", "op%="):
         o[b] = (2, [0], [0, 1], None, "")
-    for b in ("neg", "square", "inv", "copy", "reduction", "square_root", "op=neg", "op="):
+    for b in ("neg", "square", "inv", "copy", "reduction", "to_mg", "square_root", "op=neg", "op="):
         o[b] = (2, [0], [1], None, "")
     for b in ("negin", "squarein", "invin", "op++", "op--", "op++post", "op--post"):
         o[b] = (1, [0], [0], None, "")
@@ -1104,7 +1206,7 @@ def rm_spec(op, K, mg, p, v, w):
          "modin": lambda: md(v[0], v[1]), "op%=": lambda: md(v[0], v[1]),
          "neg": lambda: (-v[1]) % p, "op=neg": lambda: (-v[1]) % p, "square": lambda: v[1] * v[1] * Ri % p,
          "inv": lambda: None if inv(v[1]) is None else inv(v[1]) * R * R % p, "copy": lambda: v[1], "op=": lambda: v[1],
-         "reduction": lambda: v[1] * Ri % p,
+         "reduction": lambda: v[1] * Ri % p, "to_mg": lambda: v[1] * R % p,
          "negin": lambda: (-v[0]) % p, "squarein": lambda: v[0] * v[0] * Ri % p,
          "invin": lambda: None if inv(v[0]) is None else inv(v[0]) * R * R % p,
          "op++": lambda: (v[0] + raw(1)) % p, "op--": lambda: (v[0] - raw(1)) % p,
@@ -1142,8 +1244,8 @@ def gen_rm_cases(rng, exes, quick, cases):
             for pi, p in enumerate(mods):
                 for op, (n, dests, reads, sk, tag) in sorted(RM_OPS.items()):
                     base = op.partition(".")[0]
-                    if base == "exp" and p % 2 == 0:
-                        continue            # exp_mod wants an odd modulus
+                    if base == "exp" and p % 2 == 0 or op == "to_mg" and not mg:
+                        continue            # exp_mod wants an odd modulus; to_mg exists for MG_ACTIVE only
                     if base == "square_root" and not (p in (101, 103, 29, 3) or pi in (3, 4, 5) and p % 8 != 1):
                         continue            # prime modulus, p != 1 mod 8: no random choice in the algorithm
                     if quick and pi >= 6 and "." in op and not op.startswith("exp"):
@@ -1188,7 +1290,7 @@ def gen_rm_cases(rng, exes, quick, cases):
 
 def _ri_ops():
     o = {}
-    for b in ("add", "sub", "mul", "div_q", "div_r", "inv_mod", "op=+", "op=-", "op=*", "op=/", "op=%", "add.c", "sub.c"):
+    for b in ("add", "sub", "mul", "div_q", "div_r", "inv_mod", "mod_n", "op=+", "op=-", "op=*", "op=/", "op=%", "add.c", "sub.c"):
         o[b] = (3, [0], [1, 2], None, "")
     o["addmul"] = (3, [0], [0, 1, 2], None, "")
     for b in ("addin", "subin", "mulin", "mod_nin", "op+=", "op-=", "op*=", "op/=", "op%=", "op&=", "op|=", "op^=", "addin.c", "subin.c"):
@@ -1201,7 +1303,7 @@ def _ri_ops():
 
 
 RI_OPS = _ri_ops()
-RI_DIVISOR = {"div_q": 2, "div_r": 2, "inv_mod": 2, "op=/": 2, "op=%": 2, "mod_nin": 1, "op/=": 1, "op%=": 1}
+RI_DIVISOR = {"div_q": 2, "div_r": 2, "inv_mod": 2, "mod_n": 2, "op=/": 2, "op=%": 2, "mod_nin": 1, "op/=": 1, "op%=": 1}
 
 
 def ri_spec(op, K, v, w):
@@ -1242,7 +1344,7 @@ def gen_ri_cases(rng, exes, quick, cases):
                     x = scalar(rng, "i64nz") if sk else None
                     dp = RI_DIVISOR.get(op)
                     if dp is not None:
-                        d = rng.choice([3, 7, 101, 2 ** 31 - 1, 2 ** 61 - 1, -7, (1 << ((1 << K) - 2)) + 1] if op != "inv_mod" and op != "mod_nin" else [7, 101, 2 ** 31 - 1, 2 ** 61 - 1])
+                        d = rng.choice([3, 7, 101, 2 ** 31 - 1, 2 ** 61 - 1, -7, (1 << ((1 << K) - 2)) + 1] if op not in ("inv_mod", "mod_nin", "mod_n") else [7, 101, 2 ** 31 - 1, 2 ** 61 - 1])
                         for j in range(n):
                             if j in reads and idx[j] == idx[dp]:
                                 vals[j] = d
@@ -1258,6 +1360,187 @@ def gen_ri_cases(rng, exes, quick, cases):
 EXTRA_HARNESSES.append(("rmint", "c15_rmint.C", ()))
 EXTRA_GENERATORS.append(gen_rm_cases)
 EXTRA_GENERATORS.append(gen_ri_cases)
+
+
+# ---------------------------------------------------------------- ZRing<Integer> extras, IntPrimeDom, CRT, GF2, Modular<Log16>
+ZR_OPS = {
+    "abs": (2, [0], [1], None, ""), "assign": (2, [0], [1], None, ""), "reduce": (2, [0], [1], None, ""), "logtwo": (2, [0], [1], None, "pos1"),
+    "mod": (3, [0], [1, 2], None, "nz2"), "modin": (2, [0], [0, 1], None, "nz1"), "divexact": (3, [0], [1, 2], None, "exact"),
+    "divmod": (4, [0, 1], [2, 3], None, "nz3"), "quoRem": (4, [0, 1], [2, 3], None, "nz3"),
+    "quo": (3, [0], [1, 2], None, "nz2"), "rem": (3, [0], [1, 2], None, "nz2"), "quoin": (2, [0], [0, 1], None, "nz1"), "remin": (2, [0], [0, 1], None, "nz1"),
+    "gcd": (3, [0], [1, 2], None, "cf"), "gcd5": (5, [0, 1, 2], [3, 4], None, "cf"), "gcdin": (2, [0], [0, 1], None, "cf"),
+    "lcm": (3, [0], [1, 2], None, "cf"), "lcmin": (2, [0], [0, 1], None, "cf"), "dxgcd": (7, [0, 1, 2, 3, 4], [5, 6], None, "cfnz"),
+    "inv3": (3, [0], [1, 2], None, "unit12"), "invmod": (3, [0], [1, 2], None, "unit12"), "invin2": (2, [0], [0, 1], None, "unit01"), "invmodin": (2, [0], [0, 1], None, "unit01"),
+    "pow": (2, [0], [1], "exp", "small"), "pow.i64": (2, [0], [1], "exp", "small"), "pow.i32": (2, [0], [1], "exp", "small"), "pow.u32": (2, [0], [1], "exp", "small"),
+    "powmod": (4, [0], [1, 2, 3], None, "powmI"), "powmod.w": (3, [0], [1, 2], "sexp", "powm"),
+    "sqrt": (2, [0], [1], None, "nonneg1"), "sqrtrem": (3, [0, 1], [2], None, "nonneg2"),
+    "RationalReconstruction4": (4, [0, 1], [2, 3], None, "rr"), "RationalReconstruction6": (6, [0, 1], [2, 3, 4, 5], None, "rr"),
+    "RationalReconstruction7": (5, [0, 1], [2, 3, 4], "flags", "rr"), "ratrecon7": (5, [0, 1], [2, 3, 4], "flags", "rr"),
+    "nextprime": (2, [0], [1], None, "prime"), "prevprime": (2, [0], [1], None, "prime"), "nextprime.dom": (2, [0], [1], None, "prime"),
+    "prevprime.dom": (2, [0], [1], None, "prime"), "isprimepower": (2, [0], [1], None, "pp"),
+}
+ZR_NAMES = {"divmod": "qrab", "quoRem": "qrab", "gcd5": "guvab", "dxgcd": "gstuvab", "sqrtrem": "srn", "powmod": "rnem", "powmod.w": "rnm",
+            "RationalReconstruction4": "ndfm", "RationalReconstruction6": "ndfmxy", "RationalReconstruction7": "ndfmb", "ratrecon7": "ndfmb"}
+
+
+def zr_spec(op, v, x):
+    fdiv = lambda a, b: a // b if b > 0 else -((-a) // (-b)) if False else (a // b)
+    if op == "abs": return {0: abs(v[1])}
+    if op in ("assign", "reduce"): return {0: v[1]}
+    if op == "logtwo": return {0: v[1].bit_length() - 1}
+    if op in ("mod", "rem"): return {0: v[1] % abs(v[2])}
+    if op in ("modin", "remin"): return {0: v[0] % abs(v[1])}
+    if op == "divexact": return {0: tdiv(v[1], v[2])}
+    if op in ("divmod", "quoRem"):
+        q = v[2] // v[3] if v[3] > 0 else -(v[2] // -v[3])
+        return {0: q, 1: v[2] - q * v[3]}
+    if op == "quo": return {0: v[1] // v[2] if v[2] > 0 else -(v[1] // -v[2])}
+    if op == "quoin": return {0: v[0] // v[1] if v[1] > 0 else -(v[0] // -v[1])}
+    if op == "gcd": return {0: math.gcd(v[1], v[2])}
+    if op == "gcdin": return {0: math.gcd(v[0], v[1])}
+    if op == "lcm": return {0: abs(v[1] * v[2]) // math.gcd(v[1], v[2]) if v[1] and v[2] else 0}
+    if op == "lcmin": return {0: abs(v[0] * v[1]) // math.gcd(v[0], v[1]) if v[0] and v[1] else 0}
+    if op in ("inv3", "invmod"): return {0: pow(v[1], -1, abs(v[2]))}
+    if op in ("invin2", "invmodin"): return {0: pow(v[0], -1, abs(v[1]))}
+    if op.startswith("pow") and not op.startswith("powmod"): return {0: v[1] ** abs(x)}
+    if op == "powmod": return {0: pow(v[1], v[2], abs(v[3]))}
+    if op == "powmod.w":
+        m = abs(v[2])
+        return {0: pow(v[1], x, m)} if x >= 0 or math.gcd(v[1], m) == 1 else None
+    if op == "sqrt": return {0: math.isqrt(v[1])}
+    if op == "sqrtrem": return {0: math.isqrt(v[2]), 1: v[2] - math.isqrt(v[2]) ** 2}
+    if op == "gcd5": return {0: math.gcd(v[3], v[4])}
+    if op == "dxgcd":
+        g = math.gcd(v[5], v[6])
+        return {0: g, 3: v[5] // g, 4: v[6] // g}
+    return None             # rational reconstruction, primes: compared with the call on distinct objects
+
+
+def gen_zr_cases(rng, exes, quick, cases):
+    reps = 4 if quick else 40
+    for op, (n, dests, reads, sk, tag) in sorted(ZR_OPS.items()):
+        parts = partitions(n, dests)
+        for idx in parts:
+            for rep in range(reps if len(parts) < 40 else max(1, reps // 4)):
+                small = tag in ("small", "powm", "powmI", "exact", "prime", "pp") or rep % 3 == 0
+                x = None
+                if sk == "flags":
+                    x = None
+                elif sk:
+                    x = scalar(rng, sk)
+                def gen(k, small=small):
+                    v = z_value(rng, small)
+                    if tag in ("pos1",) or tag == "nonneg1" and k == 1 or tag == "nonneg2" and k == 2:
+                        v = abs(v) + (1 if tag == "pos1" else 0)
+                    if tag in ("unit12", "unit01") and k == int(tag[-1]):
+                        v = abs(v) + 2
+                    if tag == "powm" and k == 2 or tag == "powmI" and k == 3:
+                        v = rng.choice([7, 11, 101, 2 ** 61 - 1, 15, 1000003])
+                    if tag == "powmI" and k == 2:
+                        v = abs(v) % 50
+                    if tag == "prime":
+                        v = rng.choice([2, 3, 4, 100, 101, 2 ** 31 - 1, 2 ** 31, 2 ** 64 + 13, 10 ** 30, rng.range(3, 10 ** 6)])
+                    if tag == "pp":
+                        v = rng.choice([2, 4, 8, 9, 27, 81, 125, 49, 1024, 3 ** 40, 7 ** 23, 6, 12, 100, 1, 5 ** 20 + 1])
+                    return v
+                vals = class_values(rng, n, dests, reads, idx, gen, lambda k: z_value(rng))
+                def setc(k, v):
+                    for j in range(n):
+                        if j in reads and idx[j] == idx[k]:
+                            vals[j] = v
+                if tag in ("cf", "cfnz") and rep % 2 == 1 or tag == "cfnz":
+                    g = rng.choice([2, 6, 2 ** 64 + 13, 3 * 5 * 7 * 11, 2 ** 33, 1])
+                    cv = {}
+                    for k in sorted(reads):
+                        if idx[k] not in cv:
+                            cv[idx[k]] = g * rng.choice([1, 5, 35, 2 ** 70 + 3, 77, 9]) * (1 + len(cv)) * rng.choice([1, 1, -1])
+                        vals[k] = cv[idx[k]]
+                if tag == "exact" and idx[1] != idx[2]:
+                    if vals[2] == 0:
+                        continue
+                    setc(1, vals[2] * z_value(rng))
+                if tag in ("unit12", "unit01"):
+                    apos, mpos = (1, 2) if tag == "unit12" else (0, 1)
+                    if idx[apos] == idx[mpos]:
+                        continue
+                    if math.gcd(vals[apos], vals[mpos]) != 1:
+                        setc(apos, 1)
+                if tag == "powm" and x is not None and x < 0:
+                    if idx[1] == idx[2]:
+                        continue
+                    if math.gcd(vals[1], vals[2]) != 1:
+                        setc(1, 2)
+                ex = [x] if sk and sk != "flags" else []
+                if tag == "rr":
+                    # f mod m with a small fraction behind it: m a prime (power), f = a / b mod m, bounds ~ sqrt(m)
+                    m = rng.choice([101, 10007, 2 ** 31 - 1, 2 ** 61 - 1, 3 ** 20])
+                    a, b = rng.range(-30, 30), rng.range(1, 30)
+                    while math.gcd(b, m) != 1:
+                        b += 1
+                    f = a * pow(b, -1, m) % m
+                    setc(2, f)
+                    if idx[3] != idx[2]:
+                        setc(3, m)
+                    if n >= 5 and idx[4] not in (idx[2], idx[3]):
+                        setc(4, max(2, math.isqrt(m) // 2))
+                    if n >= 6 and idx[5] not in (idx[2], idx[3], idx[4]):
+                        setc(5, max(2, math.isqrt(m) // 2))
+                    if sk == "flags":
+                        ex = [rng.below(2), rng.below(2)]
+                c = Case("more", "ZR", "-", op, n, dests, reads, idx, vals, ex, "ZRing<Integer>::" + op if "prime" not in op else "IntPrimeDom::" + op, ZR_NAMES.get(op))
+                ok = True
+                for vv in (c.vals, c.alias_vals()):
+                    vv = [int(t) for t in vv]
+                    if tag in ("nz1", "nz2", "nz3") and vv[int(tag[-1])] == 0: ok = False
+                    if tag == "cfnz" and (vv[5] == 0 or vv[6] == 0): ok = False
+                    if tag == "exact" and (vv[2] == 0 or vv[1] % vv[2] != 0): ok = False
+                    if tag in ("unit12",) and (abs(vv[2]) < 2 or math.gcd(vv[1], vv[2]) != 1): ok = False
+                    if tag in ("unit01",) and (abs(vv[1]) < 2 or math.gcd(vv[0], vv[1]) != 1): ok = False
+                    if tag == "powm" and (abs(vv[2]) < 2 or (x < 0 and math.gcd(vv[1], vv[2]) != 1)): ok = False
+                    if tag == "powmI" and (abs(vv[3]) < 2 or vv[2] < 0): ok = False
+                    if tag == "pos1" and vv[1] <= 0: ok = False
+                    if tag == "nonneg1" and vv[1] < 0 or tag == "nonneg2" and vv[2] < 0: ok = False
+                    if tag == "rr" and (vv[3] < 2 or any(t <= 0 for t in vv[4:])): ok = False
+                    if tag == "prime" and vv[1] < 2 or tag == "pp" and vv[1] < 1: ok = False
+                if not ok:
+                    continue
+                c.spec = ("ZR", op, x)
+                cases.append(c)
+    # Chinese remaindering: res <- the lift of (A mod M, e mod p)
+    for op in ("crt", "crt.nf"):
+        for idx in partitions(3, [0]):
+            for rep in range(reps):
+                M = rng.choice([35, 2 ** 64 + 13, 3 * 5 * 7 * 11 * 13, 10 ** 20 + 39])
+                p = rng.choice([11, 101, 2 ** 31 - 1, 2 ** 61 - 1, 65521])
+                if math.gcd(M, p) != 1:
+                    continue
+                A, e = rng.range(0, M - 1), rng.range(0, p - 1)
+                vals = class_values(rng, 3, [0], [1, 2], idx, lambda k: A if k == 1 else e, lambda k: z_value(rng))
+                if idx[1] == idx[2]:
+                    vals[1] = vals[2] = rng.range(0, min(M, p) - 1)
+                c = Case("more", "CRT", "%d,%d" % (M, p), op, 3, [0], [1, 2], idx, vals, [], "ChineseRemainder<ZRing<Integer>,Modular<Integer>>::operator()", "rae")
+                c.spec = ("CRT", M, p)
+                cases.append(c)
+    # GF2 and Modular<Log16>: the ring interface
+    for dom, prms in (("gf2", ["-"]), ("log16", ["2", "3", "101", "16381"] if quick else ["2", "3", "7", "101", "251", "4093", "16381"])):
+        for prm in prms:
+            q = 2 if dom == "gf2" else int(prm)
+            for op, (n, dests, reads) in sorted(RING_OPS.items()):
+                if op.startswith("mul_precomp") or op == "reduce":
+                    continue
+                upos = {"div": [2], "inv": [1], "divin": [1], "invin": [0]}.get(op, [])
+                for idx in partitions(n, dests):
+                    for rep in range(2 if q > 2 else 4):
+                        vals = class_values(rng, n, dests, reads, idx, lambda j: rng.choice([0, 1, q - 1, rng.range(0, q - 1)]), lambda j: rng.range(0, q - 1))
+                        c = Case("more", dom, prm, op, n, dests, reads, idx, vals, [], ("GF2::" if dom == "gf2" else "Modular<Log16>::") + op)
+                        if any(c.vals[j] == 0 for j in upos) or any(c.alias_vals()[j] == 0 for j in upos):
+                            continue
+                        c.spec = ("ring", "plain", q, op, [vals[k] for k in sorted(reads)])
+                        cases.append(c)
+
+
+EXTRA_HARNESSES.append(("more", "c15_more.C", ()))
+EXTRA_GENERATORS.append(gen_zr_cases)
 
 
 # ---------------------------------------------------------------- GFq, Extension, Poly1Dom (alias comparison only)
@@ -1284,10 +1567,11 @@ POLY_OPS = {
     "karamidmul": (3, [0], [1, 2], None, "mid"), "mul.trunc": (3, [0], [1, 2], "trunc", ""),
     "divmodin": (3, [0, 1], [1, 2], None, "nz2"), "pdivmod": (4, [0, 1], [2, 3], None, "nz3"), "pmod": (3, [0], [1, 2], None, "nz2"),
     "invmod": (3, [0], [1, 2], None, "nzall"), "invmodunit": (3, [0], [1, 2], None, "nzall"), "invmodpowx": (2, [0], [1], "pdeg", "c0nz"),
-    "power_compose": (2, [0], [1], "pdeg", ""), "ratrecon": (4, [0, 1], [2, 3], "pdeg", "nzall"), "powmod": (3, [0], [1, 2], "pexp", "nz2"),
+    "power_compose": (2, [0], [1], "pdeg", ""), "ratrecon": (4, [0, 1], [2, 3], "pdeg", "nzall"), "ratreconcheck": (4, [0, 1], [2, 3], "pdeg", "nzall"),
+    "ratrecon.f": (4, [0, 1], [2, 3], "pdegf", "nzall"), "powmod": (3, [0], [1, 2], "pexp", "nz2"),
     "inv": (2, [0], [1], None, "unit1"), "shift": (2, [0], [1], "pexp", ""),
 }
-POLY_NAMES = {"divmod": "qrab", "gcd5": "duvpq", "divmodin": "qrb", "pdivmod": "qrab", "ratrecon": "ndpm", "powmod": "wpu"}
+POLY_NAMES = {"ratreconcheck": "ndpm", "ratrecon.f": "ndpm", "divmod": "qrab", "gcd5": "duvpq", "divmodin": "qrb", "pdivmod": "qrab", "ratrecon": "ndpm", "powmod": "wpu"}
 
 
 def poly_value(rng, p, maxdeg, nz=False):
@@ -1346,6 +1630,8 @@ def gen_field_cases(rng, exes, quick, cases):
             p, k = [int(t) for t in prm.split(",")]
             q = p ** k
             for op, (n, dests, reads) in sorted(RING_OPS.items()):
+                if op == "reduce" or op.startswith("mul_precomp"):
+                    continue
                 upos = {"div": [2], "inv": [1], "divin": [1], "invin": [0]}.get(op, [])
                 for idx in partitions(n, dests):
                     for rep in range(reps):
@@ -1359,6 +1645,8 @@ def gen_field_cases(rng, exes, quick, cases):
     for prm in (["3,2", "7,3", "2,5"] if quick else ["3,2", "7,3", "2,5", "5,4", "101,2", "13,3", "2,8"]):
         p, k = [int(t) for t in prm.split(",")]
         for op, (n, dests, reads) in sorted(RING_OPS.items()):
+            if op == "reduce" or op.startswith("mul_precomp"):
+                continue
             upos = {"div": [2], "inv": [1], "divin": [1], "invin": [0]}.get(op, [])
             for idx in partitions(n, dests):
                 for rep in range(reps):
@@ -1375,7 +1663,7 @@ def gen_field_cases(rng, exes, quick, cases):
                     x = None
                     if sk == "pexp":
                         x = rng.choice([0, 1, 2, 3, 5])
-                    elif sk == "pdeg":
+                    elif sk in ("pdeg", "pdegf"):
                         x = rng.choice([1, 2, 3, 5])
                     elif sk:
                         x = rng.range(1, p - 1) if sk == "coefnz" or rng.chance(3, 4) else 0
@@ -1419,6 +1707,8 @@ def gen_field_cases(rng, exes, quick, cases):
                     if tag == "unit1":
                         setpos(1, str(rng.range(1, p - 1)))
                     ex = [x] if sk else []
+                    if sk == "pdegf":
+                        ex = [x, rep % 2]
                     if sk == "trunc":
                         v0 = rng.range(0, 3)
                         ex = [v0, v0 + rng.range(0, 4)]
@@ -1431,6 +1721,86 @@ def gen_field_cases(rng, exes, quick, cases):
 
 EXTRA_HARNESSES.append(("fields", "c15_fields.C", ()))
 EXTRA_GENERATORS.append(gen_field_cases)
+
+
+# ---------------------------------------------------------------- completeness of the harness tables (clang AST of /repo's headers)
+def _load_mod(name):
+    import importlib.util
+    spec = importlib.util.spec_from_file_location(name, os.path.join(vf.ROOT, "harness", name + ".py"))
+    m = importlib.util.module_from_spec(spec)
+    spec.loader.exec_module(m)
+    return m
+
+
+DOM_FAMILY = {"Z": "Z", "Q": "Q", "RU": "RU", "RI": "RI", "RM": "RM", "poly": "POLY", "gfq32": "GFQ", "gfq64": "GFQ", "ext": "EXT", "ZR": "ZR", "CRT": "CRT"}
+
+
+def completeness(chk, cases):
+    """every public three-address declaration of the headers must be tied to harness operations (harness/c15_forms.py)"""
+    import subprocess
+    tables = {"RING": RING_OPS, "Z": Z_OPS, "Q": Q_OPS, "RU": RU_OPS, "RI": RI_OPS, "RM": RM_OPS, "POLY": POLY_OPS, "GFQ": RING_OPS,
+              "EXT": RING_OPS, "ZR": ZR_OPS, "CRT": {"crt": 0, "crt.nf": 0}}
+    # what this run drives: per family the operations, (operation, partition) pairs and cases
+    fam_ops, fam_parts, fam_cases = {}, {}, {}
+    for c in cases:
+        fam = DOM_FAMILY.get(c.dom, "RING")
+        fam_ops.setdefault(fam, set()).add(c.op)
+        fam_parts.setdefault(fam, set()).add((c.op, tuple(c.idx)))
+        fam_cases[fam] = fam_cases.get(fam, 0) + 1
+    chk.cov["families"] = {f: {"operations": len(fam_ops[f]), "operation_x_partition": len(fam_parts[f]), "cases": fam_cases[f]} for f in sorted(fam_ops)}
+    scan, forms = _load_mod("c15_scan"), _load_mod("c15_forms")
+    try:
+        decls, nseen, err = scan.declarations(timeout=900)
+    except subprocess.TimeoutExpired:
+        chk.cov.setdefault("inconclusive", []).append("clang AST dump of the headers timed out; the completeness obligation of the harness tables was not checked in this run")
+        return
+    except Exception as ex:
+        chk.broke("completeness: cannot read the declarations of /repo's headers (clang AST dump failed)", repr(ex)[-1500:])
+        return
+    unmapped, badop, undriven = [], [], []
+    n_direct = n_indirect = 0
+    excl = {}
+    per_scope = {}
+    for key in sorted(decls):
+        t = forms.lookup(key)
+        ps = per_scope.setdefault(key[0], {"declarations": 0, "driven": 0, "indirect": 0, "excluded": 0})
+        ps["declarations"] += 1
+        if t is None:
+            unmapped.append("%s::%s [%s] (%s)" % (key[0], key[1], key[2], ",".join(decls[key])))
+            continue
+        if t.startswith("!"):
+            excl[t[1:]] = excl.get(t[1:], 0) + 1
+            ps["excluded"] += 1
+            continue
+        ind = t.startswith("~")
+        fam, _, rest = t.lstrip("~").partition(":")
+        ops = rest.split(" ")[0].split(",")
+        for o in ops:
+            if fam not in tables or o not in tables[fam]:
+                badop.append("%s::%s [%s] -> %s:%s" % (key[0], key[1], key[2], fam, o))
+            elif not cases_replayed(cases) and o not in fam_ops.get(fam, ()) and not (fam == "RI" and o == "neg"):
+                undriven.append("%s:%s" % (fam, o))
+        if ind:
+            n_indirect += 1; ps["indirect"] += 1
+        else:
+            n_direct += 1; ps["driven"] += 1
+    gone = ["%s::%s [%s]" % k for k in sorted(forms.FORMS) if k not in decls]
+    chk.cov["three_address_declarations"] = {"function_declarations_seen": nseen, "three_address": len(decls), "driven_directly": n_direct,
+                                             "driven_indirectly": n_indirect, "excluded": sum(excl.values()), "by_scope": per_scope}
+    chk.cov["declarations_excluded_by_reason"] = excl
+    if unmapped:
+        chk.broke("completeness: %d public three-address declaration(s) of /repo's headers are not in the alias harness tables "
+                  "(harness/c15_forms.py): %s" % (len(unmapped), "; ".join(unmapped[:12])))
+    if badop:
+        chk.broke("completeness: declarations tied to operations the harness tables do not have: " + "; ".join(badop[:12]))
+    if undriven:
+        chk.broke("completeness: operations of the tables that no case of this run drove: " + ", ".join(sorted(set(undriven))[:20]))
+    if gone:
+        chk.broke("completeness: entries of harness/c15_forms.py whose declaration is no longer in the headers (removed or re-signed): " + "; ".join(gone[:12]))
+
+
+def cases_replayed(cases):
+    return getattr(cases_replayed, "flag", False)
 
 
 def main(tier, replay=None):
@@ -1513,19 +1883,35 @@ def main(tier, replay=None):
                     ms = ms[:4]
                 for p in ms:
                     gen_ring_cases(rng, k, ring, p, (2 if big else 1) if quick else (8 if big else 4), cases)
+                if ring in PRECOMP_RINGS:
+                    # the precomputed-quotient multiplications want a modulus of at most (bits / 2 - 2) bits: their own moduli
+                    top = (1 << (PRECOMP_RINGS[ring] // 2 - 2)) - 1
+                    pm = [m for m in dict.fromkeys([3, prevprime(top), top, prevprime(max(3, top // 2)), rng.range(3, max(3, top))]) if max(lo, 3) <= m <= min(hi, top)]
+                    for p in pm:
+                        gen_ring_cases(rng, k, ring, p, 2 if quick else 8, cases, only=("mul_precomp_p", "mul_precomp_b", "mul_precomp_b_without_reduction"))
         gen_z_cases(rng, "integer", 6 if quick else 60, cases)
         gen_q_cases(rng, "integer", 6 if quick else 60, cases)
         for g in EXTRA_GENERATORS:
             g(rng, exes, quick, cases)
+    cases_replayed.flag = bool(replay)
+    completeness(chk, cases)
     # 4. run the implementation
     by_exe = {}
     for i, c in enumerate(cases):
         by_exe.setdefault(c.exe, []).append(i)
     outs = [None] * len(cases)
 
+    ext_params = sorted(set(str(c.param) for c in cases if c.dom == "ext"))
+
     def run_exe(k):
         ids = by_exe[k]
-        rc, out, err = vf.run_lines(exes[k], "".join(cases[i].line() + "\n" for i in ids), timeout=1500)
+        pre = "".join("ext %s info 0\n" % prm for prm in ext_params) if k == "fields" else ""
+        rc, out, err = vf.run_lines(exes[k], pre + "".join(cases[i].line() + "\n" for i in ids), timeout=1500)
+        if pre and len(out) >= len(ext_params):
+            for prm, l in zip(ext_params, out[:len(ext_params)]):
+                if l.startswith("INFO "):
+                    EXT_IRRED[prm] = l.split()[1]
+            out = out[len(ext_params):]
         return k, rc, out, err
     with ThreadPoolExecutor(max(1, len(by_exe))) as ex:
         for k, rc, out, err in ex.map(run_exe, list(by_exe)):
@@ -1595,6 +1981,10 @@ def main(tier, replay=None):
                     continue      # canonical range of the balanced rings is C03's subject (known there for even moduli)
                 if got != v:
                     bad = ("distinct objects", "distinct objects: position %s is %s, the specification says %s" % (k, got, v), v, got)
+        if c.dom == "CRT" and Fv[0].lstrip("-").isdigit():
+            M_, p_ = [int(t) for t in str(c.param).split(",")]
+            if (int(Fv[0]) - int(vals[1])) % M_ != 0 or (int(Fv[0]) - int(vals[2])) % p_ != 0:
+                bad = ("distinct objects", "distinct objects: %s is not congruent to A = %s mod %d and e = %s mod %d" % (Fv[0], vals[1], M_, vals[2], p_), "the lift", Fv[0])
         for k in range(c.n):
             if bad is None and k not in c.dests and Fv[k] != vals[k]:
                 bad = ("distinct objects", "distinct objects: operand %d was modified (%s -> %s)" % (k, vals[k], Fv[k]), vals[k], Fv[k])
